@@ -5,6 +5,8 @@
 #include "dsp_util.h"
 #include "simrun.h"
 
+#include <memory>
+
 namespace vf {
 namespace {
 
@@ -100,9 +102,18 @@ template<class P>
 bool drive_real(P& p, const Env& e, uint32_t fseed, Out& o, Result& res, const char* name) {
     const auto frames = make_framing(FS_HEAVY, fseed, int64_t(e.x.size()), 0, 1, 1);
     size_t k = 0;
+    std::unique_ptr<P> cur = std::make_unique<P>(p);
+    // object-lifetime event: from one frame boundary on the stream continues on a COPY of the processor
+    const uint64_t hz = mix(fseed, 0xC0C0);
+    const size_t copy_at = (frames.size() >= 2 && hz % 4 == 0) ? 1 + size_t((hz >> 8) % (frames.size() - 1)) : size_t(-1);
+    size_t fidx = 0;
     for (int fr : frames) {
+        if (fidx++ == copy_at) {
+            cur = std::make_unique<P>(*cur);   // copy-construct; the original is destroyed: the copy must carry the complete state
+            res.inc("fault.copied_mid_stream");
+        }
         try {
-            auto r = p.process(to_arr(e.x.data() + k, size_t(fr)));
+            auto r = cur->process(to_arr(e.x.data() + k, size_t(fr)));
             if (r.out.size() != fr || r.gain.size() != fr) {
                 res.fail(std::string("C20:length:") + name, fmt("%s::process returned %d/%d samples for a frame of %d", name, r.out.size(), r.gain.size(), fr));
                 return false;
@@ -423,8 +434,17 @@ void run_agc(const Op& op, Result& res) {
     std::vector<double> gain;
     std::vector<double> pw;
     size_t k = 0;
+    const uint64_t hz = mix(fseed, 0xA6C0);
+    const size_t copy_at = (frames.size() >= 2 && hz % 4 == 0) ? 1 + size_t((hz >> 8) % (frames.size() - 1)) : size_t(-1);
+    size_t fidx = 0;
     try {
         for (int fr : frames) {
+            if (fidx++ == copy_at) {
+                // the stream continues on a COPY of the Agc object (whatever a copy is - a handle or a deep copy - it must carry the complete configuration and state)
+                dsplib::Agc b = agc;
+                agc = b;
+                res.inc("fault.copied_mid_stream");
+            }
             if (cplx) {
                 arr_cmplx x(fr);
                 for (int i = 0; i < fr; ++i) {
